@@ -31,7 +31,8 @@ def argSource (a : List (String × String)) : Source :=
     match docTable.find? (fun e => e.argKey = k || e.name = k) with
     | none => none
     | some e =>
-      if k = "hook" then some ("hook", .list (v.splitOn ",")) else
+      -- `%2C` stands for a comma inside one value
+      if k = "hook" then some ("hook", .list ((v.splitOn ",").map (fun x => x.replace "%2C" ","))) else
       some (e.argKey, match e.kind with
         | .accumulate | .replaceList => .list (v.splitOn ",")
         | .switchOn | .switchOff => .flag (v = "true")
